@@ -1958,8 +1958,11 @@ void NiTriShapeData::Sync(NiStreamReversible& stream) {
 	}
 
 	// Not supported yet, so clear it again after reading
-	matchGroups.clear();
-	numMatchGroups = 0;
+	// (match groups set through SetMatchGroups stay in place when the block is written)
+	if (stream.GetMode() == NiStreamReversible::Mode::Reading) {
+		matchGroups.clear();
+		numMatchGroups = 0;
+	}
 }
 
 void NiTriShapeData::Create(NiVersion& version,
